@@ -12,7 +12,7 @@ CLAIMS = {
         'node-name lists with/without the node and near-miss names, tag patterns from the regex AST of spec/Regex.tla with and without '
         'anchors (quick: all 108 depth-1 patterns x every value over {a,b,c} up to length 3; thorough: all 6060 depth-2 patterns x values up to length 2) incl. missing and empty tags, invalid patterns, undecodable filters, '
         'unknown filter types; ack and no-broadcast flags; names with/without the _serf_ prefix and near misses; first sight, exact '
-        'repeat, same time/other id, other time/same id, and every delivery history of length 3 (thorough 4) over four (time,id) keys) with the expected (delivered, acked, re-broadcast) computed by the TLA+ '
+        'repeat, same time/other id, other time/same id, and every delivery history of length 3 (thorough 4) over four (time,id) keys; query ids 0 / 2^31 / 2^32-1 and undefined bits 2 and 31 of the uint32 flags word) with the expected (delivered, acked, re-broadcast) computed by the TLA+ '
         'definition (PartialMatch over the finite language = regexp.MatchString); each vector is delivered through NotifyMsg to a real '
         'node with the chosen tags and the application channel (marker technique), the ack packet on the transport and the broadcast '
         'queue are compared with the definition by TLC on every step; the open model (any interleaving of deliveries, (lt,id) in '
@@ -36,12 +36,12 @@ CLAIMS = {
     'C35': (
         'model_checking',
         'TLC enumerates every member table of spec/Relay.tla (up to 3 (thorough 4) other members x status alive/leaving/left/failed x memberlist '
-        'protocol max 4/5, as multisets) x relay factor 0..4; a real node is given exactly that table (NotifyJoin/NotifyLeave/leave '
+        'protocol max 4/5, as multisets) x relay factor 0..5 and the uint8 boundary classes 127, 128, 254, 255; a real node is given exactly that table (NotifyJoin/NotifyLeave/leave '
         'intents, verified through Members()), receives queries with that relay factor and the ack flag and the application responds; '
         'the packets of each of 20 replies per vector (ack path and Respond path) are classified and TLC checks: exactly one direct '
         'reply to the origin, at most k relays, pairwise distinct, only to alive protocol>=5 members, never itself, none when fewer '
         'than k+1 members are known. kRandomMembers is additionally called through an accessor with lists of up to 3 entries over 3 '
-        'names with repeats and the node itself (quick: all 91 lists up to length 2, thorough: all 820 up to length 3; x k 0..3, 20 calls each).',
+        'names with repeats and the node itself (quick: all 91 lists up to length 2, thorough: all 820 up to length 3; x k 0..3 and 255, 20 calls each).',
         'Trusts TLC, the packet classifier (destination by transport address), and that 20 seeded repetitions expose the random '
         'choice (a wrong choice that needs a rarer draw can be missed). The model\'s outcome set is checked exhaustively by TLC.',
         _TECH, '5 C35'),
@@ -387,8 +387,8 @@ def run_c35(ctx, replay):
                     if len(run["relays"]) == min(v["k"], elig):
                         full += 1
     cov = {
-        "model_constants": "node path: up to %d other members x 4 statuses x protocol max {4,5} (multisets) x k 0..4; pick path: lists up to "
-                           "%d entries over names {self,1,2} x 3 kinds x k 0..3; %d replies per vector" % (fam.nm, fam.np, fam.runs),
+        "model_constants": "node path: up to %d other members x 4 statuses x protocol max {4,5} (multisets) x k in 0..5,127,128,254,255; pick path: lists up to "
+                           "%d entries over names {self,1,2} x 3 kinds x k in 0..3,255; %d replies per vector" % (fam.nm, fam.np, fam.runs),
         "evaluations": replies, "replies_that_could_relay": could, "of_which_used_min_k_eligible_relays": full,
         "rule": "every vector of Relay!Vectors executed on a real node whose member table was built to match (node path: ack path and "
                 "Respond path alternate) or through the kRandomMembers accessor (pick path); evaluations = replies judged by the C35 monitor",
